@@ -441,8 +441,13 @@ fn case_key(k: &str) -> String {
         let rec: Ast<'_> = Node::Record(alloc2.record_data([], [fd], false)).into();
         rec.to_string()
     };
-    let expected = format!("{{ {printed} = null }}");
-    let pp = if via_printer == expected { "same".to_string() } else { format!("DIFF:{}", show_cps(&via_printer)) };
+    // layout-insensitive: `{ KEY = null }` or, for long keys, `{\n  KEY = null\n}`
+    let inner = via_printer
+        .strip_prefix('{')
+        .and_then(|t| t.strip_suffix('}'))
+        .map(|t| t.trim_matches([' ', '\n']))
+        .unwrap_or("");
+    let pp = if inner == format!("{printed} = null") { "same".to_string() } else { format!("DIFF:{}", show_cps(&via_printer)) };
     format!("P={}\tK={}\tPP={}", show_cps(&printed), key, pp)
 }
 
@@ -775,6 +780,16 @@ fn oracles(ctx: &mut Ctx, v: NickelValue, detail: bool) -> String {
                 }
             }
         }
+    }
+    // 'YamlDocuments: an array is written as one document per element and read back as an array
+    if let Tree::Arr(_) = orig {
+        let term = mk_term::op2(
+            BinaryOp::Deserialize,
+            NickelValue::enum_tag_posless("YamlDocuments"),
+            mk_term::op2(BinaryOp::Serialize, NickelValue::enum_tag_posless("YamlDocuments"), v.clone()),
+        );
+        let ev = ctx.eval_term(term);
+        out.push(format!("yaml.docs={}", cmp_tree(&orig, &ev.as_ref().map(tree_of).map_err(|e| e.clone()))));
     }
     out.join("\t")
 }
